@@ -355,6 +355,22 @@ func runC10(r *Run) {
 				r.Violate("create-evaluator-verdict", "budgeted-before|"+s, map[string]string{"input": "a == 1"}, "a budget of 1000 steps does not suffice for `a == 1`: "+err.Error())
 			}
 		}
+		if r.Evaluations%3 == 0 {
+			// the same text attempted first under a budget of one step (and of two): whatever that attempt returns, the creation
+			// without a budget that follows is judged on the text alone (round 13: verdicts cached by text across budgets)
+			func() {
+				defer func() {
+					if p := recover(); p != nil {
+						r.Violate("create-evaluator-panics", "budget-1|"+s, c, fmt.Sprint(p))
+					}
+				}()
+				for _, b := range []uint64{1, 2} {
+					if e1, err1 := bexpr.CreateEvaluator(s, bexpr.WithMaxExpressions(b)); (e1 == nil) == (err1 == nil) {
+						r.Violate("evaluator-xor-error", "budget-1|"+s, c, fmt.Sprintf("under a budget of %d: evaluator nil=%v error nil=%v", b, e1 == nil, err1 == nil))
+					}
+				}
+			}()
+		}
 		func() {
 			defer func() {
 				if p := recover(); p != nil {
